@@ -36,7 +36,6 @@ func init() {
 			"CROW: cell i from values[i] with the builder reset between cells, the csv writer's error returned, header = field names in order, Close flushes. PAN5: every value-level TypeID has an arm.",
 		NotDecided: []string{
 			"byte-for-byte correctness of encoding/csv's quoting and of fastjson's escaping of the strings JSTR does not flag (library code)",
-			
 		},
 		Assumptions: []string{"fastjson.Arena constructors and strconv render what they are given faithfully"},
 	})
